@@ -40,6 +40,9 @@ for kind, fn in (("text", "skip_take_chars (character positions)"), ("bytes", "s
 
 ob("O-C10-splice", ["C10", "C05"], J, "c10_bytes_splice_enum", "bytes_splice(b, skip, take, r) leaves old[..skip] ++ r ++ old[skip+take..] (growing, shrinking, inserting, deleting), the kernel behind slice updates on strings", [LIB + "bytes_splice"], label="bounded", bound="every (skip, take) inside a 4-byte buffer x replacement lengths 0..=3, enumerated concretely", composes_dependency=True)
 
+ob("O-C10-read-arr", ["C10", "C02"], J, "c10_read_array_index", "the real Val::index_opt on a 3-element array: `.[i]` for every i in -5..=5 yields the element at (i >= 0 ? i : 3 + i) when that is inside and nothing otherwise - the accessor applies the position arithmetic of O-C10-abs-index to the array's own length", [LIB + "Val::index_opt"], label="bounded", bound="one 3-element array x indices -5..=5, enumerated concretely", composes_dependency=True)
+ob("O-C10-read-bytes", ["C10", "C13"], J, "c10_read_bytes_index", "the real Val::index_opt on a byte string (3 bytes, two of them a multi-byte UTF-8 sequence): `.[i]` for i in -5..=5 yields the byte (not the character) at the model position as a number, nothing outside", [LIB + "Val::index_opt"], label="bounded", bound="one 3-byte string x indices -5..=5, enumerated concretely", composes_dependency=True)
+
 # ------------------------------------------------------------------------------------ C08
 ob("O-C08-float", ["C08"], J, "c08_float_cmp_order", "float_cmp is a total preorder on non-NaN floats (reflexive, antisymmetric, transitive over all triples), float_eq <=> Equal, and it agrees with IEEE <, ==, > (so -inf < finite < +inf, -0 == +0)", [NUM + "float_cmp", NUM + "float_eq"])
 for k, kinds in (("ii", "Int,Int"), ("if", "Int,Float"), ("fi", "Float,Int"), ("ff", "Float,Float")):
